@@ -489,4 +489,61 @@ theorem cstep_sim {cfg : CCfg} (hs : cfg.sound = true) {O : COracle} {s : CState
               hh := h.hh
               hc := by intro k v hv; simp at hv }
 
+/-! ### stability pipeline cache -/
+
+structure SInv (R : Tok → Tok → Tok) (s : SState) (l : Tok × Tok) : Prop where
+  hc : s.cfg = l.1
+  ho : s.defOpt = l.2
+  hk : ∀ k i, (k, i) ∈ s.cache → i < s.next ∧ ∃ c, k.1 = some c ∧ lookup i s.held = some (R c k.2)
+
+theorem sinv_fresh (R : Tok → Tok → Tok) (c o : Tok) : SInv R (freshS c o) (c, o) where
+  hc := rfl
+  ho := rfl
+  hk := by intro k i h; simp [freshS] at h
+
+theorem stabS_sim {sc : SCfg} (hs : sc.sound = true) {R : Tok → Tok → Tok} {s : SState} {l : Tok × Tok}
+    (h : SInv R s l) (o : Tok) : SInv R (stabS sc R s o).1 l ∧ (stabS sc R s o).2 = .tok (R l.1 o) := by
+  have hf : sc.pipelinePerKey = true ∧ sc.keyHasConfig = true := by simpa [SCfg.sound] using hs
+  obtain ⟨f1, f2⟩ := hf
+  rcases s with ⟨scfg, sdo, scur, snext, sheld, scache⟩
+  obtain ⟨l1, l2⟩ := l
+  have hc := h.hc; have ho := h.ho
+  simp only at hc ho
+  subst hc ho
+  simp only [stabS, f1, f2, if_true]
+  cases hl : lookup (some scfg, o) scache with
+  | some i =>
+      obtain ⟨_, c, hk1, hk2⟩ := h.hk _ _ (lookup_mem hl)
+      simp only [Option.some.injEq] at hk1
+      subst hk1
+      simp only at hk2
+      simp only [hk2]
+      exact ⟨h, trivial⟩
+  | none =>
+      refine ⟨?_, rfl⟩
+      exact { hc := rfl, ho := rfl
+              hk := by
+                intro k i hv
+                rcases List.mem_cons.mp hv with he | he
+                · cases he
+                  exact ⟨Nat.lt_succ_self _, scfg, rfl, lookup_cons_self _ _ _⟩
+                · obtain ⟨hlt, c, hk1, hk2⟩ := h.hk k i he
+                  simp only at hlt
+                  refine ⟨Nat.lt_succ_of_lt hlt, c, hk1, ?_⟩
+                  rw [lookup_cons_ne _ _ (by intro e; omega)]
+                  exact hk2 }
+
+theorem sstep_sim {sc : SCfg} (hs : sc.sound = true) {R : Tok → Tok → Tok} {s : SState} {l : Tok × Tok}
+    (h : SInv R s l) (op : SOp) :
+    SInv R (stepS sc R s op).1 (stepSL R l op).1 ∧ (stepS sc R s op).2 = (stepSL R l op).2 := by
+  cases op with
+  | stab o => exact stabS_sim hs h o
+  | eig =>
+      have := stabS_sim hs h s.defOpt
+      simp only [stepS, stepSL]
+      rw [← h.ho]
+      exact this
+  | setOpts o => exact ⟨{ hc := h.hc, ho := rfl, hk := h.hk }, rfl⟩
+  | setCfg c => exact ⟨{ hc := rfl, ho := h.ho, hk := h.hk }, rfl⟩
+
 end HitenModel.C20
